@@ -44,3 +44,5 @@ pub mod c08_converter;
 pub mod c18_sinc;
 #[cfg(all(kani, feature = "c16"))]
 pub mod c16_nodes;
+#[cfg(all(kani, feature = "c07"))]
+pub mod c07_noalloc;
